@@ -60,7 +60,7 @@ func (a *qcAPI) RequestAndDecode(dst interface{}, method, path string, body io.R
 	case method == "GET" && path == "arvados/v1/containers":
 		p := params.(arvados.ResourceListParams)
 		cursor := ""
-		first := true
+		first := p.Offset == 0 // fetchAll pages by offset (its uuid-cursor branch is dead: len(Order) == 1 is never true for a string)
 		for _, f := range p.Filters {
 			if f.Attr == "uuid" && f.Operator == ">" {
 				cursor = f.Operand.(string)
@@ -104,6 +104,11 @@ func (a *qcAPI) RequestAndDecode(dst interface{}, method, path string, body io.R
 			if ok {
 				items = append(items, a.ctr(r))
 			}
+		}
+		if p.Offset >= len(items) {
+			items = nil
+		} else {
+			items = items[p.Offset:]
 		}
 		dst.(*arvados.ContainerList).Items = items
 		return nil
